@@ -121,7 +121,7 @@ Definition op_ok (s : state) (k : nat) (o : opk) : bool :=
   | AddCache s' => add_ok s k s'
   | MoveClean => st_eqb s S_WAIT && only k [32; 10]
   | MoveCleanWait => st_eqb s S_IN_EXPLAIN_2_AFTER_2A && only k [47]
-  | CleanWait | CleanEnd => st_eqb s S_IN_EXPLAIN_1 || empty_st s
+  | CleanWait | CleanEnd => st_eqb s S_IN_EXPLAIN_1 || st_eqb s S_CUSTOM_1 || empty_st s
   | SetEnd => empty_st s
   | HandleWait _ | HandleEnd _ | WordWait | WordEnd | AddHandleWait _ => true
   | AddHandle _ => empty_ok s
@@ -137,7 +137,7 @@ Definition end_ok (s : state) (o : opk) : bool :=
   negb (st_eqb (op_next o s) S_END) || op_stops o ||
   match o with
   | SetEnd => empty_st s
-  | CleanEnd => st_eqb s S_IN_EXPLAIN_1 || empty_st s
+  | CleanEnd => st_eqb s S_IN_EXPLAIN_1 || st_eqb s S_CUSTOM_1 || empty_st s
   | HandleEnd _ | WordEnd => true
   | _ => false
   end.
@@ -289,15 +289,17 @@ Proof.
   - (* CleanWait *)
     destruct (drop m) as [m1|x] eqn:Ed; [|discriminate]. inversion Ha; subst m1; clear Ha.
     destruct (drop_J m m' Ed Hl) as (A & B & _).
-    + apply orb_true_iff in Hok as [Hs|Hs].
+    + apply orb_true_iff in Hok as [Hs|Hs]; [apply orb_true_iff in Hs as [Hs|Hs]|].
       * apply st_eqb_eq in Hs. subst s. simpl in Hw. destruct Hw as (b & [Hw|Hw] & Hb); right; rewrite Hw; simpl; exact Hb.
+      * apply st_eqb_eq in Hs. subst s. simpl in Hw. right. rewrite Hw. reflexivity.
       * left. apply rev_nil_inv. eapply empty_st_wp; eauto.
     + split; [simpl; rewrite A; reflexivity|exact B].
   - (* CleanEnd *)
     destruct (drop m) as [m1|x] eqn:Ed; [|discriminate]. inversion Ha; subst m1; clear Ha.
     destruct (drop_J m m' Ed Hl) as (A & B & _).
-    + apply orb_true_iff in Hok as [Hs|Hs].
+    + apply orb_true_iff in Hok as [Hs|Hs]; [apply orb_true_iff in Hs as [Hs|Hs]|].
       * apply st_eqb_eq in Hs. subst s. simpl in Hw. destruct Hw as (b & [Hw|Hw] & Hb); right; rewrite Hw; simpl; exact Hb.
+      * apply st_eqb_eq in Hs. subst s. simpl in Hw. right. rewrite Hw. reflexivity.
       * left. apply rev_nil_inv. eapply empty_st_wp; eauto.
     + split; [simpl; rewrite A; reflexivity|exact B].
   - (* AddCache *)
